@@ -1,5 +1,6 @@
 import Yaql.Drv.Util
 import Yaql.Model.DateTime
+import Yaql.Model.DateTimeHist
 import Yaql.Gen.DateTimeDefs
 /-! Driver for C20: evaluates expression trees over datetimes / timespans / numbers on the model
 (`Yaql.DateTime`).  The class of every datetime parameter (`yaqltypes.DateTime()` or bare) is looked
@@ -255,8 +256,68 @@ def outV : R → Json
   | .error .noMatch => jo [("err", js "NoMatchingFunctionException")]
   | .error (.bad m) => jo [("err", js ("bad-request:" ++ m))]
 
+/-! ### histories of one expression node (`Model/DateTimeHist.lean`)
+
+request `{"p":"C20","host":<us>,"hist":[{"op":"="|..|"+"|"-", "mode":"off"|"last", "rows":[[x,y],..]} |
+{"op1":"utc"|"offset"|"timestamp","rows":[[x],..]}, ..]}` with operands `null | {"i":n} | {"s":[code points]} |
+{"ts":us} | {"dt":[wall,off|null]}`; reply `{"h":[[result,..],..]}`. -/
+
+open Yaql.DateTimeHist in
+def histCfg : Cfg :=
+  { cmpCls := fun op => cls2 (cmpYaqlName op) [.dt, .dt],
+    minusDtDt := cls2 (oper ['-']) [.dt, .dt],
+    plusDtTs := cls1 (oper ['+']) [.dt, .ts],
+    plusTsDt := cls1 (oper ['+']) [.ts, .dt],
+    minusDtTs := cls1 (oper ['-']) [.dt, .ts],
+    utc := cls1 (prop "utc".toList) [.dt],
+    offset := cls1 (prop "offset".toList) [.dt],
+    timestamp := cls1 (prop "timestamp".toList) [.dt] }
+
+open Yaql.DateTimeHist in
+def operandOf (j : Json) : Operand :=
+  if jisNull j then .null
+  else if jhas j "i" then .int (jint j "i")
+  else if jhas j "s" then .str ((jarr j "s").map fun c => Char.ofNat (asNat c))
+  else if jhas j "ts" then .ts (jint j "ts")
+  else match jarr j "dt" with
+    | [w, o] => .dt ⟨asInt w, if jisNull o then none else some (asInt o)⟩
+    | _ => .null
+
+open Yaql.DateTimeHist in
+def op2Of (s : String) : Option Op2 :=
+  match s with
+  | "+" => some .plus
+  | "-" => some .minus
+  | _ => (cmpOfName s).map .cmp
+
+open Yaql.DateTimeHist in
+def outRes : Res → Json
+  | .ok (.bool b) => jo [("b", jb b)]
+  | .ok (.int n) => jo [("i", ji n)]
+  | .ok (.str s) => jo [("s", jl (s.map fun c => jn c.toNat))]
+  | .ok (.ts t) => jo [("ts", ji t)]
+  | .ok (.dt d) => jo [("dt", jl [ji d.wall, match d.off with | some o => ji o | none => .null])]
+  | .ok (.fl w) => jo [("fb", js (toString w.toNat))]
+  | .error (.py e) => jo [("err", js (errName e))]
+  | .error .noMatch => jo [("err", js "NoMatching")]
+
+open Yaql.DateTimeHist in
+def handleHist (host : Int) (c : Json) : Json :=
+  let rows := (jarr c "rows").map asArr
+  if jhas c "op1" then
+    let op : Op1 := match jstr c "op1" with | "utc" => .utc | "offset" => .offset | _ => .timestamp
+    jl ((runHistory1 histCfg host op (rows.map fun r => operandOf (r.getD 0 .null))).map outRes)
+  else
+    match op2Of (jstr c "op") with
+    | none => jl []
+    | some op =>
+        let mode : CacheMode := if jstr c "mode" == "last" then .lastWinner else .off
+        jl ((runHistory histCfg mode op {} (rows.map fun r => (operandOf (r.getD 0 .null), operandOf (r.getD 1 .null)))).map
+          outRes)
+
 def handle (req : Json) : Json :=
   let host := jint req "host"
-  jo [("r", jl ((jarr req "cases").map fun c => outV (eval host c)))]
+  if jhas req "hist" then jo [("h", jl ((jarr req "hist").map (handleHist host)))]
+  else jo [("r", jl ((jarr req "cases").map fun c => outV (eval host c)))]
 
 end Yaql.Drv.C20
